@@ -70,6 +70,8 @@ pub fn gen_parse_case(rng: &mut Rng, force_valid: bool) -> ParseCase {
     let mut cfg = gen_cfg(rng);
     let size = if !cfg!(miri) && rng.chance(1, 400) {
         3
+    } else if !cfg!(miri) && rng.chance(1, 300) {
+        4 // small document with free text much longer than a chunk
     } else {
         rng.weighted(&[3, 5, 2])
     };
@@ -80,7 +82,7 @@ pub fn gen_parse_case(rng: &mut Rng, force_valid: bool) -> ParseCase {
     };
     let (doc, spans) = match class {
         2 => {
-            let n = [4, 24, 120, 40_000][size] + rng.below(8);
+            let n = [4, 24, 120, 40_000, 120][size] + rng.below(8);
             (gen::arbitrary(rng, cfg.kind, n), vec![])
         }
         c => {
